@@ -10,6 +10,7 @@ EXPLANATION = (
     "provably hold that constant in every sealed state: on every path of `seal` a callee that sets it to that constant is passed, or "
     "next_unsealed resets it (must-pass-through over CFG + call graph). R3 pairing with to_block: everything from_block reads from the "
     "block is written by to_block."
+    " R2 additionally decides the part of the `tips` clause that holds today: a block sealed WITH a proposer action has tips = 0 on every path through seal and its callees (`tips/const-under-action`); the recorded finding D5 is the seal(None) case."
 )
 NOT_DECIDED = ["extensional equality of all future behaviour (follows from R1+R2 only together with C03/C07)",
                "that the content-addressed store returns the tree with the requested root (novasmt, trusted base)"]
